@@ -228,7 +228,7 @@ def run(ctx) -> int:
              lambda: probe(rng_for("C01", seed, "search"), 3 if q else 20),
              "whole pipeline (tokens / HTML / env / exception class / termination): model and implementation differ")
     cov = proof_cov("C01", proofs, [
-        "proved on the model for every input: parse / parseInline / render / renderInline never raise (block parser, inline parser with post-processing, core chain, renderer on parser output), the block parser is total; NOT proved: that the inline parser's fuel (tokenizer loop, label loop, recursion depth) suffices, and that the renderer's precondition (no non-string class attribute on a fence) holds of parser output - those are carried by the model-vs-implementation comparison of exception classes / termination and by the exploration of this run (partial)",
+        "proved on the model for every input: parse / parseInline / render / renderInline never raise (block parser, inline parser with post-processing, core chain, renderer on parser output), the block parser is total; NOT proved: that the inline parser's recursion-depth fuel suffices (its two loops are proved fuel-independent) - that is carried by the model-vs-implementation comparison of exception classes / termination and by the exploration of this run (partial)",
         "re / str primitives never raise on str input; surrogate code points excluded; linkify-it-py absent (its guard is modelled)"])
     cov.update({
         "evaluations": n_corr + sum(counts.values()), "distinct_nontrivial": len(set(lines)) + sum(counts.values()),
